@@ -527,13 +527,15 @@ pub fn format_block(ctx: &Context, block: &Block, shape: Shape) -> Block {
         ctx = ctx.check_toggle_formatting(stmt);
 
         let shape = shape.reset();
-        // A statement which is ignored or outside of the formatting range keeps its semicolon (and its trivia) untouched
+        // A statement which is ignored or outside of the formatting range keeps its semicolon (and its trivia) untouched.
+        // This must be decided on the original statement: formatted tokens no longer carry source positions
         let keep_semicolon_verbatim = !matches!(ctx.should_format_node(stmt), FormatNode::Normal);
         let mut stmt = format_stmt(&ctx, stmt, shape);
 
         // If this is the first stmt, then remove any leading newlines
         if !found_first_stmt {
-            if let FormatNode::Normal = ctx.should_format_node(&stmt) {
+            // Decided on the original statement: the formatted tokens no longer carry source positions
+            if !keep_semicolon_verbatim {
                 stmt = stmt_remove_leading_newlines(stmt);
             }
             found_first_stmt = true;
@@ -613,8 +615,7 @@ pub fn format_block(ctx: &Context, block: &Block, shape: Shape) -> Block {
                 !matches!(ctx.should_format_node(last_stmt), FormatNode::Normal);
             let mut last_stmt = format_last_stmt(&ctx, last_stmt, shape);
             // If this is the first stmt, then remove any leading newlines
-            if !found_first_stmt && matches!(ctx.should_format_node(&last_stmt), FormatNode::Normal)
-            {
+            if !found_first_stmt && !keep_semicolon_verbatim {
                 last_stmt = last_stmt_remove_leading_newlines(last_stmt);
             }
 
